@@ -83,6 +83,32 @@ def tifa_glue(a0: bool, a1: bool, a2: bool, b0: bool, b1: bool, b2: bool) -> boo
     a, b = GLUE_VALUES[bits(a0, a1, a2)], GLUE_VALUES[bits(b0, b1, b2)]
     if excluded("C19.tifa_glue", sym=sym, a=a, b=b):
         return True
+    return _glue_cell(sym, fn, a, b)
+
+
+EMPTY_VALUES = ["", [], (), {}, 0, "a", [1], 3]
+
+
+def tifa_glue_empty(a0: bool, a1: bool, a2: bool, b0: bool, b1: bool, b2: bool) -> bool:
+    """
+    tifa_glue with EMPTY operands on either side: '', [], (), {} and 0 against 'a', [1] and 3 (operator = partition) - the
+    empty string is still a string (3 in '' is a TypeError), an empty list still a list.
+
+    pre: True
+    post: _
+    """
+    if tick():
+        return True
+    k = int(PART) if PART else 16
+    sym, node, fn = (BINOPS + CMPS)[k]
+    a, b = EMPTY_VALUES[bits(a0, a1, a2)], EMPTY_VALUES[bits(b0, b1, b2)]
+    if excluded("C19.tifa_glue", sym=sym, a=a, b=b):
+        return True
+    with NoTracing():
+        return _glue_cell(sym, fn, a, b)
+
+
+def _glue_cell(sym, fn, a, b):
     raised_type_error, has_result, result = False, False, None
     try:
         result = fn(a, b)
@@ -102,6 +128,55 @@ def tifa_glue(a0: bool, a1: bool, a2: bool, b0: bool, b1: bool, b2: bool) -> boo
         return True
     z = res.top_level_variables["z"].type
     return isinstance(z, Type) and bool(is_subtype(get_pedal_type_from_value(result), z))
+
+
+CHAIN_OPS = ["==", "!=", "<", "<=", ">", "in", "is"]
+CHAIN_VALUES = [1, 2.5, "a", [1], (1, 2), "ab"]
+
+
+def tifa_chain(a0: bool, a1: bool, a2: bool, b0: bool, b1: bool, b2: bool, c0: bool, c1: bool, c2: bool,
+               o0: bool, o1: bool, o2: bool) -> bool:
+    """
+    Chained comparisons through the real analysis: `r = x op1 y op2 z` with op1 = partition, op2 from
+    {==, !=, <, <=, >, in, is}, operands from {1, 2.5, 'a', [1], (1, 2), 'ab'}: whenever CPython raises TypeError
+    evaluating the chain (it compares x with y, then - unless that was false - y with z), incompatible_types is reported;
+    when nothing is reported the type of r admits the real value.
+
+    pre: True
+    post: _
+    """
+    if tick():
+        return True
+    ia, ib, ic, k2 = bits(a0, a1, a2), bits(b0, b1, b2), bits(c0, c1, c2), bits(o0, o1, o2)
+    if ia >= 6 or ib >= 6 or ic >= 6 or k2 >= 7:
+        return True
+    k1 = int(PART) if PART else 1
+    with NoTracing():
+        return _chain_cell(CHAIN_OPS[k1], CHAIN_OPS[k2], CHAIN_VALUES[ia], CHAIN_VALUES[ib], CHAIN_VALUES[ic])
+
+
+def _chain_cell(op1, op2, a, b, c):
+    code = "x = %r\ny = %r\nz = %r\nr = x %s y %s z\n" % (a, b, c, op1, op2)
+    raised_type_error, has_result, result = False, False, None
+    import warnings
+    with warnings.catch_warnings():
+        warnings.simplefilter("ignore")
+        ns = {}
+        try:
+            exec(compile(code, "chain", "exec"), ns)
+            result, has_result = ns["r"], True
+        except TypeError:
+            raised_type_error = True
+    r = Report()
+    contextualize_report(code, report=r)
+    res = tifa_analysis(report=r)
+    issues = res.issues.get("incompatible_types", [])
+    if raised_type_error:
+        return len(issues) >= 1
+    if issues or not has_result:
+        return True
+    t = res.top_level_variables["r"].type
+    return isinstance(t, Type) and bool(is_subtype(get_pedal_type_from_value(result), t))
 
 
 def _vt(v):
@@ -175,6 +250,27 @@ def value_set(has0: bool, has1: bool, has_a: bool, has_f: bool) -> bool:
     if has_f:
         v.add(2.5)
     return _vt(v)
+
+
+_NAN = float("nan")
+SPECIAL_VALUES = [{_NAN: 1}, [_NAN], (_NAN, 1), {1.5: "a"}, {True: 1, 2: "b"}, {None: 1}, {(1, 2): 3}, {"a": {_NAN: 1}},
+                  [{_NAN: 1}], {float("inf"): 1}, {-0.0: 1}, {"": ""}, [[], [1]], ((), (1,)), {frozenset(): 1}, {1: {2: {3: [4.5]}}}]
+
+
+def value_special(k0: bool, k1: bool, k2: bool, k3: bool) -> bool:
+    """
+    Value typing on unusual but legal JSON-like values: NaN / inf / -0.0 / None / bool / tuple / frozenset dictionary keys,
+    NaN elements, empty containers nested in containers, three-level dictionaries. Stable and conforming as above.
+
+    pre: True
+    post: _
+    """
+    if tick():
+        return True
+    v = SPECIAL_VALUES[bits(k0, k1, k2, k3)]
+    with NoTracing():
+        t1, t2 = get_pedal_type_from_value(v), get_pedal_type_from_value(v)
+        return _vt(v) and bool(is_subtype(t1, t2)) and bool(is_subtype(t2, t1))
 
 
 def value_nested(v: List[List[int]]) -> bool:
